@@ -540,6 +540,7 @@ func main() {
 
 func work(a lib.Args) {
 	res := lib.NewResult("C01", a.Seed, a.Tier)
+	res.ShardSize = 150 // histories are long: smaller shards spread over the Coq workers
 	rng := lib.NewRng(a.Seed)
 	mocks := map[bool]*acc.Env{false: acc.StartMockAPI(false), true: acc.StartMockAPI(true)}
 	real := acc.StartRealRelay(rng.Bool())
